@@ -158,7 +158,7 @@ def generate(rng, prop, tier):
             ops.append({"op": "tick", "dt": dt})
         elif k == "bad_name":
             ops.append({"op": k, "o": o, "method": rng.choice(["set_password", "set_hash", "delete", "get_hash", "check_password", "users", "delete_realm"]),
-                        "name": rng.choice(BAD_NAMES), "which": rng.choice(["user", "realm"])})
+                        "name": rng.choice(BAD_NAMES), "which": rng.choice(["user", "realm", "realm", "default_realm"] if cls == "htdigest" else ["user"])})
         elif k == "external_edit":
             ops.append({"op": k, "kind": rng.choice(["append_rec", "append_rec", "remove_line", "swap_lines", "add_comment", "add_blank",
                                                      "dup_line", "malformed", "crlf", "strip_final_newline", "replace_all", "truncate_file",
@@ -836,6 +836,25 @@ class _W:
         if m == "users" and self.nf == 2:
             return
         before = ht.to_string()
+        if op["which"] == "default_realm":
+            # the invalid realm is the file's configured default, used by calls that leave the realm out (or pass None)
+            if m in ("users", "delete_realm") and False:
+                return
+            old_default = ht.default_realm
+            ht.default_realm = name
+            try:
+                calls = {"set_password": (ht.set_password, ("alice", "pw")), "set_hash": (ht.set_hash, ("alice", "0" * 32)),
+                         "delete": (ht.delete, ("alice",)), "get_hash": (ht.get_hash, ("alice",)), "check_password": (ht.check_password, ("alice", "pw")),
+                         "users": (ht.users, ()), "delete_realm": (ht.delete_realm, (None,))}
+                fn, a = calls[m]
+                r = self.call(fn, *a)
+                self.fs.reset_fired()
+                ctx.check(r[0] == "exc" and isinstance(r[2], ValueError), "C16", "invalid-name-not-refused",
+                          f"{m}{a!r} with default_realm={name!r} -> {r[:2]}", method=m, which="default_realm")
+                ctx.check(ht.to_string() == before, "C16", "refused-call-changed-state", f"{m}{a!r} with default_realm={name!r} changed the database")
+            finally:
+                ht.default_realm = old_default
+            return
         user, realm = ("alice", name) if op["which"] == "realm" else (name, "r1")
         if self.nf == 2:
             a = {"set_password": (user, "pw"), "set_hash": (user, "x"), "delete": (user,), "get_hash": (user,),
